@@ -120,6 +120,25 @@ func (bc *boundCtx) bounded1(v ssa.Value, at ssa.Instruction, d int) bool {
 			bc.why[v] = "read from the wire (" + core.FuncKey(core.CalleeFunc(x.Tuple.(*ssa.Call))) + ")"
 			return false
 		}
+		// a library helper that reads and validates: bounded when the value it returns is bounded at
+		// each of its success exits (the caller uses it behind the helper's error, rule *.errors)
+		if cl, ok := x.Tuple.(*ssa.Call); ok {
+			if g := core.StaticFn(cl); g != nil && g.Blocks != nil && pkgOf(g) != nil && core.IsLib(pkgOf(g)) {
+				nret := 0
+				for _, b := range g.Blocks {
+					ret, ok := b.Instrs[len(b.Instrs)-1].(*ssa.Return)
+					if !ok || !defaultSuccess(g, ret) || len(ret.Results) <= x.Index {
+						continue
+					}
+					nret++
+					if !bc.bounded(ret.Results[x.Index], ret, d+1) {
+						bc.why[v] = "returned by " + g.Name() + ": " + bc.why[ret.Results[x.Index]]
+						return false
+					}
+				}
+				return nret > 0
+			}
+		}
 		return false
 	case *ssa.Convert:
 		return bc.bounded(x.X, at, d+1)
@@ -323,6 +342,8 @@ func runC06(c *Ctx) {
 		ruleRowsUsed(c, p, "C06.rowsused")
 		ruleLastIndex(c, p, "C06.lastindex")
 		ruleValidationLoops(c, p, "C06.validate")
+		ruleConfigParsed(c, p, "C06.config")
+		ruleConfiguredFlag(c, p, "C06.configured")
 		c.R.Rule("C06.errors", "E6 (as C07.errors): every read error on the decode side reaches only failure exits - a swallowed error turns hostile input into a silently wrong (internally inconsistent) result")
 		nE := runErrDisc(c, p, p.Funcs(), errDiscOpts{Rule: "C06.errors", Class: readerClass(p), Exempt: isDoReceiverPacket})
 		c.R.Floor("C06.errors", cfg.Name, nE, 190)
@@ -1084,6 +1105,35 @@ func ruleSliceOrder(c *Ctx, p *core.Program, rule string) {
 					return true
 				}
 				// edges of comparisons between the two results (either polarity orders them on one side)
+				// orders: which truth value of the comparison implies lo <= hi (0: true, 1: false, -1: neither)
+				orders := func(cond ssa.Value) int {
+					bo, ok := cond.(*ssa.BinOp)
+					if !ok {
+						return -1
+					}
+					var loLeft bool
+					switch {
+					case from(bo.X, lo) && from(bo.Y, hi):
+						loLeft = true
+					case from(bo.X, hi) && from(bo.Y, lo):
+						loLeft = false
+					default:
+						return -1
+					}
+					switch bo.Op {
+					case token.LSS, token.LEQ: // X < Y true
+						if loLeft {
+							return 0
+						}
+						return 1
+					case token.GTR, token.GEQ:
+						if loLeft {
+							return 1
+						}
+						return 0
+					}
+					return -1
+				}
 				var orderedIn func(f *ssa.Function, d int) []core.Edge
 				orderedIn = func(f *ssa.Function, d int) []core.Edge {
 					var ordered []core.Edge
@@ -1092,36 +1142,7 @@ func ruleSliceOrder(c *Ctx, p *core.Program, rule string) {
 						if !ok {
 							continue
 						}
-						bo, ok := ifi.Cond.(*ssa.BinOp)
-						if !ok {
-							continue
-						}
-						var loLeft bool
-						switch {
-						case from(bo.X, lo) && from(bo.Y, hi):
-							loLeft = true
-						case from(bo.X, hi) && from(bo.Y, lo):
-							loLeft = false
-						default:
-							continue
-						}
-						// which successor implies lo <= hi (or lo < hi)
-						succ := -1
-						switch bo.Op {
-						case token.LSS, token.LEQ: // X < Y true
-							if loLeft {
-								succ = 0
-							} else {
-								succ = 1
-							}
-						case token.GTR, token.GEQ:
-							if loLeft {
-								succ = 1
-							} else {
-								succ = 0
-							}
-						}
-						if succ >= 0 {
+						if succ := orders(ifi.Cond); succ >= 0 {
 							ordered = append(ordered, core.Edge{B: h, Succ: succ})
 						}
 					}
@@ -1148,6 +1169,28 @@ func ruleSliceOrder(c *Ctx, p *core.Program, rule string) {
 								continue
 							}
 							any = true
+							// the flag computed as a conjunction `a && b && lo <= hi`: a phi whose incoming values
+							// are the constant false or a comparison that orders the bounds when true
+							flagOrders := func(v ssa.Value) bool {
+								vals := []ssa.Value{v}
+								if ph, isPhi := v.(*ssa.Phi); isPhi {
+									vals = ph.Edges
+								}
+								sawCmp := false
+								for _, e := range vals {
+									if k, isC := e.(*ssa.Const); isC && k.Value != nil && k.Value.String() == "false" {
+										continue
+									}
+									if orders(e) != 0 {
+										return false
+									}
+									sawCmp = true
+								}
+								return sawCmp
+							}
+							if flagOrders(ret.Results[j]) {
+								continue
+							}
 							if len(og) == 0 || !core.OnlyViaEdges(g, ret, og) {
 								all = false
 							}
@@ -1532,4 +1575,309 @@ func ruleLastIndex(c *Ctx, p *core.Program, rule string) {
 		}
 	}
 	c.R.Count("last-element accesses in decoders["+cfg+"]", n)
+}
+
+// ---- C06.config
+// configFields: fields of a column that size an allocation in its decoder as a
+// trusted factor ("TypeName.Field"), discovered from the allocation sinks.
+func configFields(p *core.Program) map[string]bool {
+	out := map[string]bool{}
+	var walk func(v ssa.Value, d int)
+	walk = func(v ssa.Value, d int) {
+		if d > 8 || v == nil {
+			return
+		}
+		if isRecvConfig(v) {
+			x := stripConv(v)
+			switch y := x.(type) {
+			case *ssa.UnOp:
+				if fa, ok := y.X.(*ssa.FieldAddr); ok {
+					if nm := core.NamedOf(fa.X.Type()); nm != nil {
+						out[nm.Obj().Name()+"."+fieldNameOnly(fa.X.Type(), fa.Field)] = true
+					}
+				}
+			case *ssa.Field:
+				if nm := core.NamedOf(y.X.Type()); nm != nil {
+					out[nm.Obj().Name()+"."+fieldNameOnly(y.X.Type(), y.Field)] = true
+				}
+			}
+			return
+		}
+		switch x := v.(type) {
+		case *ssa.BinOp:
+			walk(x.X, d+1)
+			walk(x.Y, d+1)
+		case *ssa.Convert:
+			walk(x.X, d+1)
+		case *ssa.ChangeType:
+			walk(x.X, d+1)
+		}
+	}
+	for _, fn := range decodeSide(p) {
+		for _, b := range fn.Blocks {
+			for _, in := range b.Instrs {
+				switch x := in.(type) {
+				case *ssa.MakeSlice:
+					if bo, ok := stripConv(x.Len).(*ssa.BinOp); ok && bo.Op == token.MUL {
+						walk(bo, 0)
+					}
+				case *ssa.Call:
+					if f := core.CalleeFunc(x); f != nil && core.IsMethod(f, core.PkgProto, "Buffer", "Ensure") {
+						if bo, ok := stripConv(x.Call.Args[1]).(*ssa.BinOp); ok && bo.Op == token.MUL {
+							walk(bo, 0)
+						}
+					}
+				}
+			}
+		}
+	}
+	return out
+}
+
+func isStrconvParse(v ssa.Value) bool {
+	cl, ok := v.(*ssa.Call)
+	if !ok {
+		return false
+	}
+	f := core.CalleeFunc(cl)
+	return f != nil && f.Pkg() != nil && f.Pkg().Path() == "strconv" && (f.Name() == "Atoi" || strings.HasPrefix(f.Name(), "Parse"))
+}
+
+// parsedConfigStores: stores of a parsed number into one of the configuration
+// fields inside fn; each is reported with whether the number is range-checked
+// (constant upper bound and constant lower bound) on every path to the store.
+func parsedConfigStores(bc *boundCtx, fn *ssa.Function, fields map[string]bool, setters map[*ssa.Function]int) (sites []ssa.Instruction, checked []bool) {
+	lowerOK := func(v ssa.Value, at ssa.Instruction) bool {
+		same := func(x ssa.Value) bool { return stripConv(x) == stripConv(v) }
+		lower := core.CondEdges(fn, false, func(cond ssa.Value) (bool, bool) {
+			bo, ok := cond.(*ssa.BinOp)
+			if !ok {
+				return false, false
+			}
+			if _, okc := core.ConstInt(bo.Y); okc && same(bo.X) {
+				switch bo.Op {
+				case token.LSS, token.LEQ:
+					return true, true
+				case token.GTR, token.GEQ:
+					return false, true
+				}
+			}
+			return false, false
+		})
+		return len(lower) > 0 && core.OnlyViaEdges(fn, at, lower)
+	}
+	add := func(val ssa.Value, at ssa.Instruction) {
+		if !core.DependsOn(val, isStrconvParse, false) {
+			return
+		}
+		v := stripConv(val)
+		if _, unsigned := v.(*ssa.Extract); unsigned {
+			if b, ok := v.Type().Underlying().(*types.Basic); ok && b.Info()&types.IsUnsigned != 0 {
+				sites = append(sites, at)
+				checked = append(checked, bc.checkedOnPath(v, at))
+				return
+			}
+		}
+		sites = append(sites, at)
+		checked = append(checked, bc.checkedOnPath(v, at) && lowerOK(v, at))
+	}
+	for _, b := range fn.Blocks {
+		for _, in := range b.Instrs {
+			switch x := in.(type) {
+			case *ssa.Store:
+				fa, ok := x.Addr.(*ssa.FieldAddr)
+				if !ok {
+					continue
+				}
+				nm := core.NamedOf(fa.X.Type())
+				if nm == nil || !fields[nm.Obj().Name()+"."+fieldNameOnly(fa.X.Type(), fa.Field)] {
+					continue
+				}
+				add(x.Val, in)
+			case *ssa.Call:
+				if sf := core.StaticFn(x); sf != nil {
+					if pi, ok := setters[sf]; ok && pi < len(x.Call.Args) {
+						add(x.Call.Args[pi], in)
+					}
+				}
+			}
+		}
+	}
+	return
+}
+
+// configSetters: methods that store one of their parameters directly into a configuration field.
+func configSetters(p *core.Program, fields map[string]bool) map[*ssa.Function]int {
+	out := map[*ssa.Function]int{}
+	for _, fn := range p.Funcs() {
+		if pkgOf(fn) == nil || pkgOf(fn).Path() != core.PkgProto {
+			continue
+		}
+		for _, b := range fn.Blocks {
+			for _, in := range b.Instrs {
+				s, ok := in.(*ssa.Store)
+				if !ok {
+					continue
+				}
+				fa, ok := s.Addr.(*ssa.FieldAddr)
+				if !ok {
+					continue
+				}
+				nm := core.NamedOf(fa.X.Type())
+				if nm == nil || !fields[nm.Obj().Name()+"."+fieldNameOnly(fa.X.Type(), fa.Field)] {
+					continue
+				}
+				for i, pr := range fn.Params {
+					if stripConv(s.Val) == ssa.Value(pr) {
+						out[fn] = i
+					}
+				}
+			}
+		}
+	}
+	return out
+}
+
+func ruleConfigParsed(c *Ctx, p *core.Program, rule string) {
+	c.R.Rule(rule, "a column's configuration field that multiplies the row count in its decoder's allocation (FixedString's Size) is a trusted factor only while the caller sets it: wherever package proto stores a number parsed from a string (a column type sent by the server) into such a field - directly, through a composite literal or through its setter - the number is compared with a constant upper bound and a constant lower bound on every path to the store; otherwise `FixedString(-1)` or `FixedString(4611686018427387904)` in a block header makes the decoder's make() panic")
+	cfg := p.Cfg.Name
+	fields := configFields(p)
+	if len(fields) == 0 {
+		c.R.Unk(rule, "config-fields", cfg, "", "no configuration field sizes an allocation")
+		return
+	}
+	setters := configSetters(p, fields)
+	bc := newBoundCtx(p)
+	n := 0
+	for _, fn := range p.Funcs() {
+		if pkgOf(fn) == nil || pkgOf(fn).Path() != core.PkgProto || strings.HasPrefix(fn.Name(), "verifFixture") {
+			continue
+		}
+		sites, checked := parsedConfigStores(bc, fn, fields, setters)
+		for i, at := range sites {
+			n++
+			key := sprintf("%s/parsed-config#%d", core.FuncName(fn), i+1)
+			if checked[i] {
+				c.R.Ok(rule, key, cfg, p.Pos(at.Pos()), "parsed size range-checked before it is stored")
+			} else {
+				c.R.Bad(rule, key, cfg, p.Pos(at.Pos()), "a number parsed from the column type string is stored into an allocation-sizing configuration field without a constant lower and upper bound: a hostile type string makes the decoder's allocation panic or abort")
+			}
+		}
+	}
+	names := []string{}
+	for k := range fields {
+		names = append(names, k)
+	}
+	sort.Strings(names)
+	c.R.Ok(rule, "config-fields", cfg, "", sprintf("fields %v, %d setters, %d parsed stores", names, len(setters), n))
+}
+
+// ---- C06.configured
+// A row accessor that panics while a boolean "configured" flag of the column is
+// unset relies on every way of configuring the column setting the flag. The
+// caller sets it through the With* builders; for a column configured from the
+// wire the only other way is the type's own Infer.
+func ruleConfiguredFlag(c *Ctx, p *core.Program, rule string) {
+	c.R.Rule(rule, "a column whose accessors panic while one of its boolean fields is false (ColDateTime64.PrecisionSet) is usable after decoding only if inference sets that field: for every column type with such a guard and an Infer method, each success exit of Infer is reached only through a store of `true` to the field - otherwise a type string accepted by Infer leaves a successfully decoded column whose Row(i) panics")
+	cfg := p.Cfg.Name
+	n := 0
+	for _, ct := range columnTypes(p) {
+		flags := map[string]token.Pos{}
+		for _, fn := range p.Funcs() {
+			if fn.Blocks == nil || core.RecvNamed2(fn) != ct {
+				continue
+			}
+			for _, b := range fn.Blocks {
+				for _, in := range b.Instrs {
+					if _, ok := in.(*ssa.Panic); !ok {
+						continue
+					}
+					for _, gb := range fn.Blocks {
+						ifi, ok := gb.Instrs[len(gb.Instrs)-1].(*ssa.If)
+						if !ok || !gb.Dominates(b) {
+							continue
+						}
+						cond := ifi.Cond
+						if u, ok := cond.(*ssa.UnOp); ok && u.Op == token.NOT {
+							cond = u.X
+						}
+						name := ""
+						switch x := cond.(type) {
+						case *ssa.UnOp:
+							if fa, ok := x.X.(*ssa.FieldAddr); ok && x.Op == token.MUL && core.NamedOf(fa.X.Type()) == ct {
+								name = fieldNameOnly(fa.X.Type(), fa.Field)
+							}
+						case *ssa.Field:
+							if core.NamedOf(x.X.Type()) == ct {
+								name = fieldNameOnly(x.X.Type(), x.Field)
+							}
+						}
+						if name != "" {
+							if b, ok := cond.Type().Underlying().(*types.Basic); ok && b.Kind() == types.Bool {
+								flags[name] = in.Pos()
+							}
+						}
+					}
+				}
+			}
+		}
+		if len(flags) == 0 {
+			continue
+		}
+		inf := methodOf(p, ct, "Infer")
+		if inf == nil || inf.Blocks == nil {
+			continue
+		}
+		for name := range flags {
+			n++
+			key := ct.Obj().Name() + "." + name
+			isSet := func(in ssa.Instruction) bool {
+				s, ok := in.(*ssa.Store)
+				if !ok {
+					return false
+				}
+				fa, ok := s.Addr.(*ssa.FieldAddr)
+				if !ok || core.NamedOf(fa.X.Type()) != ct || fieldNameOnly(fa.X.Type(), fa.Field) != name {
+					// a builder of the same type that sets it (WithPrecision)
+					return false
+				}
+				k, ok := s.Val.(*ssa.Const)
+				return ok && k.Value != nil && k.Value.String() == "true"
+			}
+			setter := func(in ssa.Instruction) bool {
+				if isSet(in) {
+					return true
+				}
+				cl, ok := in.(*ssa.Call)
+				if !ok {
+					return false
+				}
+				sf := core.StaticFn(cl)
+				if sf == nil || sf.Blocks == nil || core.RecvNamed2(sf) != ct {
+					return false
+				}
+				// must set on every path of the helper
+				return len(core.ReachAvoiding(core.Entry(sf), core.IsExit, isSet, nil)) == 0
+			}
+			bad := false
+			for _, b := range inf.Blocks {
+				ret, ok := b.Instrs[len(b.Instrs)-1].(*ssa.Return)
+				if !ok || !defaultSuccess(inf, ret) {
+					continue
+				}
+				w := core.ReachAvoiding(core.Entry(inf), func(x ssa.Instruction) bool { return x == ssa.Instruction(ret) }, setter, nil)
+				if len(w) > 0 {
+					bad = true
+					c.R.Bad(rule, key, cfg, p.Pos(ret.Pos()), "Infer can succeed without setting "+name+": the column then decodes a block and its accessors panic on every row")
+					break
+				}
+			}
+			if !bad {
+				c.R.Ok(rule, key, cfg, p.Pos(inf.Pos()), "every success exit of Infer passes a store of true to "+name)
+			}
+		}
+	}
+	if n == 0 {
+		c.R.Unk(rule, "population", cfg, "", "no flag-guarded panic found (expected ColDateTime64.PrecisionSet)")
+	}
 }
